@@ -185,87 +185,128 @@ theorem mountPut_linv {s : St} {t m : Nat} (h : LInv s t (m + 1)) : LInv (mountP
       exact this
     · simp only [nHand] at hm ⊢; show s.mountRefs - 1 = _; omega
 
-theorem cnt_data_mput (s : St) (h : KeysNodup s.data) (ino : Ino) (d : IData) :
-    cnt (fun d : IData => d.fh.isNone) (mput s.data ino d) + (match mget s.data ino with
-        | some o => if o.fh.isNone then 1 else 0
-        | none => 0) = nFile s + (if d.fh.isNone then 1 else 0)
-    ∧ cnt (fun d : IData => d.fh.isSome) (mput s.data ino d) + (match mget s.data ino with
-        | some o => if o.fh.isSome then 1 else 0
-        | none => 0) = nHand s + (if d.fh.isSome then 1 else 0) :=
-  ⟨cnt_mput _ h ino d, cnt_mput _ h ino d⟩
+/-- the state with one entry of the inode store replaced / added / removed, ledger untouched -/
+def withData (s : St) (data : List (Ino × IData)) : St := { s with data := data }
+
+theorem isNone_or_isSome (o : Option FhId) :
+    (o.isNone = true ∧ o.isSome = false) ∨ (o.isNone = false ∧ o.isSome = true) := by
+  cases o <;> simp
+
+/-- taking an entry out of the store without dropping it: its resources become temporaries -/
+theorem delEntry_linv {s : St} {t m : Nat} (h : LInv s t m) {ino : Ino} {old : IData}
+    (hm : mget s.data ino = some old) :
+    LInv (withData s (mdel s.data ino)) (t + (if old.fh.isNone then 1 else 0))
+      (m + (if old.fh.isSome then 1 else 0)) := by
+  have c1 := cnt_mdel (fun d : IData => d.fh.isNone) h.nd ino
+  have c2 := cnt_mdel (fun d : IData => d.fh.isSome) h.nd ino
+  rw [hm] at c1 c2
+  simp only at c1 c2
+  refine ⟨h.nd.mdel ino, h.nh, ?_, ?_⟩
+  · have := h.fds
+    show s.fds = 2 + cnt _ (mdel s.data ino) + mfd s + s.handles.length + _
+    simp only [nFile] at this; omega
+  · have := h.mr
+    show s.mountRefs = cnt _ (mdel s.data ino) + _
+    simp only [nHand] at this; omega
+
+/-- putting an entry into a free slot of the store: it takes over its temporaries -/
+theorem addEntry_linv {s : St} {t m : Nat} {ino : Ino} (d : IData) (hm : mget s.data ino = none)
+    (h : LInv s (t + (if d.fh.isNone then 1 else 0)) (m + (if d.fh.isSome then 1 else 0))) :
+    LInv (withData s (mput s.data ino d)) t m := by
+  have c1 := cnt_mput (fun d : IData => d.fh.isNone) h.nd ino d
+  have c2 := cnt_mput (fun d : IData => d.fh.isSome) h.nd ino d
+  rw [hm] at c1 c2
+  simp only at c1 c2
+  refine ⟨h.nd.mput ino d, h.nh, ?_, ?_⟩
+  · have := h.fds
+    show s.fds = 2 + cnt _ (mput s.data ino d) + mfd s + s.handles.length + t
+    simp only [nFile] at this; omega
+  · have := h.mr
+    show s.mountRefs = cnt _ (mput s.data ino d) + m
+    simp only [nHand] at this; omega
+
+theorem dropIData_linv {s : St} {t m : Nat} (d : IData)
+    (h : LInv s (t + (if d.fh.isNone then 1 else 0)) (m + (if d.fh.isSome then 1 else 0))) :
+    LInv (dropIData s d) t m := by
+  unfold dropIData
+  cases hf : d.fh with
+  | none => simp only [hf, Option.isNone_none, Option.isSome_none, if_true] at h ⊢
+            exact freeFd_linv (by simpa using h)
+  | some x => simp only [hf, Option.isNone_some, Option.isSome_some, if_true] at h ⊢
+              exact mountPut_linv (by simpa using h)
+
+theorem mdel_mdel (m : List (Ino × IData)) (k : Ino) : mdel (mdel m k) k = mdel m k := by
+  unfold mdel
+  rw [List.filter_filter]
+  congr 1
+  funext p
+  cases h : decide (p.1 = k) <;> simp [h]
+
+theorem mput_mdel (m : List (Ino × IData)) (k : Ino) (v : IData) : mput (mdel m k) k v = mput m k v := by
+  unfold mput; rw [mdel_mdel]
 
 theorem setRefs_linv {s : St} {t m : Nat} (h : LInv s t m) {ino : Ino} {d : IData}
     (hm : mget s.data ino = some d) (r : Nat) : LInv (setRefs s ino d r) t m := by
-  have hc := cnt_data_mput s h.nd ino { d with refs := r }
-  rw [hm] at hc
-  simp only at hc
-  refine ⟨h.nd.mput _ _, h.nh, ?_, ?_⟩
-  · have := h.fds
-    show s.fds = 2 + cnt _ (mput s.data ino { d with refs := r }) + mfd s + s.handles.length + t
-    have := hc.1; simp only [nFile] at *; omega
-  · have := h.mr
-    show s.mountRefs = cnt _ (mput s.data ino { d with refs := r }) + m
-    have := hc.2; simp only [nHand] at *; omega
+  have h1 := delEntry_linv h hm
+  have h2 : LInv (withData (withData s (mdel s.data ino)) (mput (mdel s.data ino) ino { d with refs := r })) t m :=
+    addEntry_linv { d with refs := r } (by show mget (mdel s.data ino) ino = none; simp) h1
+  rw [mput_mdel] at h2
+  exact h2.of_eq ⟨rfl, rfl, rfl, rfl⟩
 
-theorem isNone_or_isSome (o : Option FhId) : (o.isNone = true ∧ o.isSome = false) ∨ (o.isNone = false ∧ o.isSome = true) := by
-  cases o <;> simp
+theorem dropIData_withData (s : St) (x : List (Ino × IData)) (d : IData) :
+    dropIData (withData s x) d = withData (dropIData s d) x := by
+  unfold dropIData
+  cases d.fh with
+  | none => rfl
+  | some _ =>
+    simp only
+    unfold mountPut
+    show (if s.mountRefs = 1 then _ else _) = withData (if s.mountRefs = 1 then _ else _) x
+    split <;> rfl
 
 /-- `InodeStore::insert`: the new entry takes over one temporary (its `O_PATH` descriptor, or its
     mount-fd reference); an entry it replaces is dropped -/
 theorem insertInode_linv {s : St} {t m : Nat} (ino : Ino) (d : IData)
     (h : LInv s (t + (if d.fh.isNone then 1 else 0)) (m + (if d.fh.isSome then 1 else 0))) :
     LInv (insertInode s ino d) t m := by
-  have hc := cnt_data_mput s h.nd ino d
-  have hfds := h.fds
-  have hmr := h.mr
-  unfold insertInode
   cases hm : mget s.data ino with
   | none =>
-    rw [hm] at hc
-    simp only at hc ⊢
-    refine ⟨h.nd.mput _ _, h.nh, ?_, ?_⟩
-    · show s.fds = 2 + cnt _ (mput s.data ino d) + mfd s + s.handles.length + t
-      have := hc.1; simp only [nFile] at *; omega
-    · show s.mountRefs = cnt _ (mput s.data ino d) + m
-      have := hc.2; simp only [nHand] at *
-      rcases isNone_or_isSome d.fh with ⟨a, b⟩ | ⟨a, b⟩ <;> simp only [a, b] at * <;> omega
+    have := addEntry_linv d hm h
+    refine this.of_eq ⟨?_, ?_, ?_, ?_⟩ <;> simp [insertInode, hm, withData]
   | some old =>
-    rw [hm] at hc
-    simp only at hc ⊢
-    have hdt := tables_dropIData s old
-    have hdd := data_of_tables hdt
-    have hdh := handles_of_tables hdt
-    refine ⟨by show KeysNodup (mput (dropIData s old).data ino d); rw [hdd]; exact h.nd.mput _ _,
-      by show KeysNodup (dropIData s old).handles; rw [hdh]; exact h.nh, ?_, ?_⟩
-    · show (dropIData s old).fds = 2 + cnt _ (mput (dropIData s old).data ino d)
-          + (if (dropIData s old).mountRefs > 0 then 1 else 0) + (dropIData s old).handles.length + t
-      rw [hdd, hdh]
-      have c1 := hc.1; have c2 := hc.2
-      simp only [nFile, nHand, mfd] at *
-      unfold dropIData
-      rcases isNone_or_isSome old.fh with ⟨a, b⟩ | ⟨a, b⟩
-      · have : old.fh = none := by cases hx : old.fh <;> simp_all
-        simp only [this, freeFd]
-        rcases isNone_or_isSome d.fh with ⟨a', b'⟩ | ⟨a', b'⟩ <;> simp only [a, b, a', b'] at * <;>
-          (split at hfds <;> simp_all <;> omega)
-      · obtain ⟨hh, hx⟩ : ∃ hh, old.fh = some hh := by cases hx : old.fh <;> simp_all
-        simp only [hx]
-        unfold mountPut
-        rcases isNone_or_isSome d.fh with ⟨a', b'⟩ | ⟨a', b'⟩ <;> simp only [a, b, a', b'] at * <;>
-          (split <;> simp only [freeFd] <;> (split at hfds <;> simp_all <;> omega))
-    · show (dropIData s old).mountRefs = cnt _ (mput (dropIData s old).data ino d) + m
-      rw [hdd]
-      have c2 := hc.2
-      simp only [nHand] at *
-      unfold dropIData
-      rcases isNone_or_isSome old.fh with ⟨a, b⟩ | ⟨a, b⟩
-      · have : old.fh = none := by cases hx : old.fh <;> simp_all
-        simp only [this, freeFd]
-        rcases isNone_or_isSome d.fh with ⟨a', b'⟩ | ⟨a', b'⟩ <;> simp only [a, b, a', b'] at * <;> omega
-      · obtain ⟨hh, hx⟩ : ∃ hh, old.fh = some hh := by cases hx : old.fh <;> simp_all
-        simp only [hx]
-        unfold mountPut
-        rcases isNone_or_isSome d.fh with ⟨a', b'⟩ | ⟨a', b'⟩ <;> simp only [a, b, a', b'] at * <;>
-          (split <;> simp only [freeFd] <;> omega)
+    -- take the old entry out, drop it, put the new one in
+    have h1 := delEntry_linv h hm
+    have h2 := dropIData_linv (s := withData s (mdel s.data ino)) old h1
+    rw [dropIData_withData] at h2
+    have h3 : LInv (withData (withData (dropIData s old) (mdel s.data ino))
+        (mput (mdel s.data ino) ino d)) t m :=
+      addEntry_linv d (by show mget (mdel s.data ino) ino = none; simp) h2
+    rw [mput_mdel] at h3
+    refine h3.of_eq ⟨?_, ?_, ?_, ?_⟩
+    · simp [insertInode, hm, withData, data_of_tables (tables_dropIData s old)]
+    · simp [insertInode, hm, withData]
+    · simp [insertInode, hm, withData]
+    · simp [insertInode, hm, withData]
+
+/-- `InodeStore::remove` + drop of the removed `InodeData` -/
+theorem removeInode_linv {s : St} {t m : Nat} (h : LInv s t m) {ino : Ino} {d : IData}
+    (hm : mget s.data ino = some d) (keep : Bool) : LInv (removeInode s ino d keep) t m := by
+  have h1 := delEntry_linv h hm
+  have h2 := dropIData_linv (s := withData s (mdel s.data ino)) d h1
+  rw [dropIData_withData] at h2
+  have ht := tables_dropIData s d
+  refine h2.of_eq ⟨?_, ?_, ?_, ?_⟩
+  · show (removeInode s ino d keep).data = mdel s.data ino
+    simp
+  · show (removeInode s ino d keep).handles = (dropIData s d).handles
+    unfold removeInode
+    cases keep <;> simp only [Bool.false_eq_true, if_false, if_true] <;>
+      rw [handles_of_tables (tables_dropIData _ d), handles_of_tables ht]
+  · show (removeInode s ino d keep).fds = (dropIData s d).fds
+    unfold removeInode dropIData
+    cases keep <;> cases d.fh <;> simp [freeFd, mountPut] <;> split <;> rfl
+  · show (removeInode s ino d keep).mountRefs = (dropIData s d).mountRefs
+    unfold removeInode dropIData
+    cases keep <;> cases d.fh <;> simp [freeFd, mountPut] <;> split <;> rfl
 
 end Fbr.PtRefs
